@@ -2,4 +2,7 @@
 
 package all
 
-import _ "verif/harness/internal/props/c01"
+import (
+	_ "verif/harness/internal/props/c01"
+	_ "verif/harness/internal/props/c01/proxy"
+)
